@@ -43,13 +43,16 @@ type rawOp struct {
 	Bool1, Bool2         bool
 }
 
-var alphabet = []string{"a", "b", "c"}
+// "32=a" is a typed component with the value bytes of "a"; "32%3Da" is a generic component
+// whose value is the text "32=a": three different components that a name-keyed table must
+// keep apart (the PIT/CS tree keys its children by component hash, the FIBs by name hash).
+var alphabet = []string{"a", "b", "c", "32=a", "32%3Da"}
 
 func genLitName(t *rapid.T) string {
 	d := rapid.SampledFrom([]int{0, 1, 1, 2, 2, 2, 3, 3, 4}).Draw(t, "depth")
 	c := make([]string, d)
 	for i := range c {
-		c[i] = alphabet[rapid.SampledFrom([]int{0, 0, 0, 1, 1, 2}).Draw(t, "comp")]
+		c[i] = alphabet[rapid.SampledFrom([]int{0, 0, 0, 1, 1, 2, 0, 0, 0, 1, 1, 2, 3, 3, 4}).Draw(t, "comp")]
 	}
 	return join(c)
 }
@@ -475,6 +478,17 @@ func genCaseFor(p Profile) func(t *rapid.T) Case {
 						n = n[:len(n)-1] // shorter
 					} else if r.Bool2 {
 						n = append(append([]string{}, n...), alphabet[r.D%3]) // longer
+					}
+					op.N = join(n)
+				case how < 9 && len(usedNames) > 0 && r.G%2 == 0:
+					// a used name with one component replaced by its twin of another type / another escaping
+					n := append([]string{}, comps(usedNames[r.C%len(usedNames)])...)
+					if len(n) > 0 {
+						i := r.D % len(n)
+						n[i] = map[string]string{"a": "32=a", "32=a": "a", "32%3Da": "32=a"}[n[i]]
+						if n[i] == "" {
+							n[i] = "32%3Da"
+						}
 					}
 					op.N = join(n)
 				default:
